@@ -429,6 +429,9 @@ pub fn master_main(check: &'static dyn Check, ctx: Ctx) -> i32 {
     let open: Vec<&Finding> = findings.iter().filter(|f| f.status == "open").collect();
     let mut known_lines = Vec::new();
     let mut witness_results = Vec::new();
+    // a finding quarantines hazard cases only while its committed witness still fails: a witness that has stopped
+    // failing means the entry is stale (repaired, or moved), and what it used to cover is reported again
+    let mut active: std::collections::BTreeSet<String> = std::collections::BTreeSet::new();
     for f in &open {
         let has_witness = !f.witness.is_empty() || f.raw.get("witness_text").is_some() || f.raw.get("witness_variants").is_some();
         let observed = if has_witness { check.replay_witness(&ctx, f) } else { None };
@@ -442,6 +445,9 @@ pub fn master_main(check: &'static dyn Check, ctx: Ctx) -> i32 {
                 .with("observed", observed.clone().map(J::Str).unwrap_or(J::Null))
                 .with("still_fails", J::Bool(still)),
         );
+        if still || !has_witness {
+            active.insert(f.id.clone());
+        }
         if still {
             known_lines.push(format!("KNOWN-FINDING: property={} {} [{}]", id, f.what, f.id));
         } else if let Some(sig) = observed {
@@ -462,7 +468,7 @@ pub fn master_main(check: &'static dyn Check, ctx: Ctx) -> i32 {
         let mut is_known = false;
         if let Some(h) = &v.hazard {
             for f in &open {
-                if &f.feature == h && sig_matches(&f.signature, &v.signature) {
+                if &f.feature == h && sig_matches(&f.signature, &v.signature) && active.contains(&f.id) {
                     is_known = true;
                     *known_counts.entry(f.id.clone()).or_insert(0) += 1;
                     break;
